@@ -22,4 +22,23 @@ CLAIMS = {
         "note": COMMON_NOTE,
         "technique": "ast dispatch-exhaustiveness, truth-table evaluation of the filter condition, call-graph reachability",
     },
+    "C03": {
+        "text": "Decides structural necessary conditions of print/parse round-tripping: the printer registry covers every node "
+                "class the parser constructs; every print_X (and helper formatting a child directly) reads every content slot "
+                "of its node class; the quoted-string encoder's escape classes each decode back to the same character in the "
+                "lexer; _block_string guards its indexing and its terminator; the printer is stateless. Does not decide that "
+                "the layout helpers always emit parseable text nor the identity itself.",
+        "note": COMMON_NOTE,
+        "technique": "ast node-shape agreement (parser constructions vs printer attribute reads), escape-class table, dominance of guards",
+    },
+    "C18": {
+        "text": "Decides structural necessary conditions of visitor traversal: dispatch registries route every node kind and "
+                "name existing, phase-matched handlers; each _visit_X traverses every child-bearing slot the parser fills, in "
+                "source order, and writes the result back; every path of the enter/children/leave wrapper has the documented "
+                "event sequence (path-sensitive on None tests, exception edge for SkipNode); ChainedVisitor threads and "
+                "reverses; map_and_filter is an order-preserving None filter. Does not decide behaviour under arbitrary user "
+                "visitors.",
+        "note": COMMON_NOTE,
+        "technique": "ast node-shape agreement, typestate over all CFG paths of the wrapper, registry table checks",
+    },
 }
